@@ -13,22 +13,39 @@ META = {
     "theorems": ["C04_merge", "C04_merge_sorted", "C04_merge_int", "C04_union_spec", "C04_agree_id", "C04_agree_int", "C04_agree_text",
                  "C04_agree_oid", "C04_agree_owner", "C04_associate_absent_refuted",
                  "C04_cursor_roundtrip_int", "C04_cursor_roundtrip_partial", "C04_old_checksum_cursor_refuted"],
-    "technique": "Coq proof that the Gallina transcription of CalculateCursor rebuilds the index key of the last item for every primary attribute "
-                 "class (numeric via C05 parse/print round trip; text codecs as premises) + differential correspondence of that transcription with "
-                 "objectcore.CalculateCursor, acceptance of the rebuilt cursor by PreprocessSearchQuery, and comparison of objectcore.MergeSearchResults "
-                 "with the declarative reference ref_merge (de-duplicated union in (stored value, ID) order, first lim, more flag)",
-    "level_text": "partial. Proved for all inputs: CalculateCursor(filter, last item) = index key of the last item (C04_cursor_roundtrip_int, "
-                  "C04_cursor_roundtrip_partial; base58/hex/UUID round trips are premises), for the repaired code (fix commits 4584b6d+6b58265, 868e279). "
-                  "NOT proved: the k-way merge loop of MergeSearchResults (not modelled), the engine/server composition and C04_chain; the real "
-                  "MergeSearchResults is compared with ref_merge on generated per-shard result sets (all primary attribute classes, 1-4 sets with overlapping "
-                  "copies, limits 1,2,3,1000) on every run, which is a test-level tie, not a proof.",
-    "level_note": "partial: merge loop, StorageEngine.Search and Server.ProcessSearch composition are not modelled (differential check of MergeSearchResults only; "
-                  "multi-shard engine search over real shards is not exercised). Text codecs (base58, hex, UUID) are premises of the cursor theorem and "
-                  "instantiated from observed values in the tie. Sets fed to the merge are generated in index order (what C03 establishes for one shard).",
-    "trusted_base": ["Coq 8.16.1 kernel, vm_compute", "model Search/Merge.v hand-written, calc_cursor tied by differential check",
-                     "harness/cmd/search (merge.go), lib/vlib.py"],
-    "assumptions": ["dec_b58 (enc_b58 r) = Some r, dec_hex (enc_hex r) = Some r, |enc_hex r| = 2|r|, dec_uuid (enc_uuid r) = Some r for 16-byte r",
-                    "per-shard result sets are sorted by (stored value, ID) and truncated to the limit with `more` set"],
+    "technique": "executable Gallina model of objectcore.MergeSearchResults as written (special cases, calcMaxUniqueSearchResults, the k-way loop with its "
+                 "inner minimal-head selection, comparator choice per firstAttr / cmpInt, de-duplication by ID, the `more` computation) and of CalculateCursor; "
+                 "Coq proofs by induction over the loop (invariant: the sets stay strictly index-ordered, the selected head is the global minimum = head of the "
+                 "sorted duplicate-free union) that the merge of index-ordered pages is the first `lim` items of the union with an exact `more` flag, with the "
+                 "comparator-agreement premise proved per attribute class (numeric through C05's order / parse-print theorems); proof that the rebuilt cursor is "
+                 "the index key; differential correspondence: MergeSearchResults = model on generated well-formed and malformed streams, = the theorem's right-hand "
+                 "side on well-formed ones, CalculateCursor = model = index key and accepted by PreprocessSearchQuery, and a real StorageEngine with 1-4 shards "
+                 "against one metabase holding the union (pages, cursors, acceptance) and against the model applied to what the shards returned",
+    "level_text": "partial. Proved for all inputs: (1) C04_merge -- if every input set is the first `lim` items of its shard's strictly (stored value, ID)-ordered "
+                  "list with flag = 'the shard has more', an ID determines the item, and the comparator MergeSearchResults uses for this firstAttr / cmpInt "
+                  "agrees with byte order of the stored values, then the model of MergeSearchResults returns exactly the first `lim` items of the sorted "
+                  "duplicate-free union of the shards' lists and `more` is exact (C04_merge_sorted: same for arbitrary ordered sets); C04_union_spec characterises "
+                  "that union. (2) the agreement premise per class: ID-only, numeric (C04_agree_int, via C05), text-compared attributes (C04_agree_text: plain "
+                  "values outright; payload checksum / homomorphic hash / split ID only under the stated premise that hex / UUID text order equals byte order), "
+                  "object-ID valued (parent, first, associate) and owner (given that DecodeString returns the stored bytes); C04_merge_int is the fully instantiated "
+                  "numeric case. (3) where the premise failed: NOT_PRESENT on __NEOFS__ASSOCIATE with requested attributes (C04_associate_absent_refuted; repaired in "
+                  "the callers, fix ba6590b). (4) CalculateCursor(filter, last item) = index key of the last item for every class (C04_cursor_roundtrip_int, "
+                  "C04_cursor_roundtrip_partial; base58/hex/UUID round trips are premises). NOT proved: the chain over several requests (C04_chain), that each shard's "
+                  "result is an index-ordered page (C03, only partly proved there), the composition inside StorageEngine.Search (modelled as engine_merge and tied, "
+                  "not proved) and Server.ProcessSearch (not modelled).",
+    "level_note": "partial: C04_chain and the engine / server composition are not proved. StorageEngine.Search is covered by the differential check over real shards "
+                  "(vs one search over the union and vs the model applied to the shards' pages); Server.ProcessSearch (multi-node merge, goroutines, TTL, meta service) "
+                  "is not modelled and not exercised -- only its call of MergeSearchResults / CalculateCursor is shared with the engine. uint16 arithmetic of the merge "
+                  "is not modelled (lim and set sizes < 2^16). oid.ID / user.ID DecodeString, base58, hex, UUID codecs are parameters / premises, instantiated from "
+                  "observed values in the tie. Shard error handling inside the engine (a failing shard is skipped) is not exercised. The reference single search "
+                  "returns a spurious cursor + empty page for unfiltered listings when only unavailable objects follow (C03 quirk); the comparison tolerates exactly that.",
+    "trusted_base": ["Coq 8.16.1 kernel, vm_compute", "models Search/MergeLoop.v and Search/Merge.v hand-written, tied by differential checks",
+                     "C05 theorems (S256/*Proofs.v) used by the numeric class", "harness/cmd/search (merge.go, engine.go), hooks engine/zz_verif_engine_hooks.go, lib/vlib.py"],
+    "assumptions": ["dec_b58 (enc_b58 r) = Some r, dec_hex (enc_hex r) = Some r, |enc_hex r| = 2|r|, dec_uuid (enc_uuid r) = Some r for 16-byte r (cursor theorems)",
+                    "per-shard result sets are strictly sorted by (stored value, ID) and truncated to the limit with `more` set (premise Inv / pages of C04_merge; C03's statement)",
+                    "copies of one object on different shards return the same first attribute (premise: an ID determines the item)",
+                    "hex / UUID text order = byte order of the stored value (premise of C04_agree_text for checksum, homomorphic hash, split ID)",
+                    "oid.ID / user.ID DecodeString of the returned text gives the stored bytes (premise of C04_agree_oid / C04_agree_owner)"],
 }
 
 OPS = ["M_UNSPEC", "M_EQ", "M_NE", "M_NOT_PRESENT", "M_PREFIX", "M_GT", "M_GE", "M_LT", "M_LE"]
@@ -150,7 +167,7 @@ def run(ctx):
     c03.gen_consts(ctx, binp)
     ctx.prove()
     model = ctx.model_ready(["Search/MergeCheck.vo"])
-    nc, nm, ne, nq = (400, 900, 8, 6) if ctx.tier == "quick" else (4000, 12000, 150, 10)
+    nc, nm, ne, nq = (400, 900, 8, 6) if ctx.tier == "quick" else (4000, 9000, 100, 8)
     cursors = ctx.run_json([binp, "merge", str(nc)])
     merges = ctx.run_json([binp, "mergegen", str(nm)])
     engs = ctx.run_json([binp, "enggen", str(ne), str(nq)])
